@@ -22,7 +22,7 @@ ASSUMPTIONS = ['harness samplers (conditional inversion / Marshall-Olkin) valida
                'binomial rule: a cell is violated only when the exact test rejects fraction >= 0.7']
 
 CELL_TAUS = {'quick': [0.3, 0.5, 0.7], 'thorough': [0.3, 0.4, 0.5, 0.6, 0.7]}
-SEEDS = {'quick': 100, 'thorough': 600}
+SEEDS = {'quick': 100, 'thorough': 1500}
 
 
 def cases(seed, tier):
@@ -31,7 +31,7 @@ def cases(seed, tier):
     pool = c10.cases(seed + 7919, tier)
     if tier == 'quick':
         pool = pool + c10.cases(seed + 104729, tier) + c10.cases(seed + 1299709, tier)
-    for spec in pool[:1500]:
+    for spec in (pool if tier == 'quick' else pool[:4000]):
         out.append(dict(spec, mode='consistency'))
     # large samples (the selection must still be a function of ALL rows)
     for r in range(3 if tier == 'quick' else 18):
